@@ -94,6 +94,13 @@ CLAIMED.update({
          "attribution oracle over reply logs + sampled-state assertion at reply publish + quiescence detector + goroutine-leak filter", "DESIGN.md §4 C18"),
 })
 
+CLAIMED.update({
+ "C01": ("fault_enumeration",
+         "Real Router stages connected by real GoChannel topics with fault-injecting handler/publisher wrappers: every placement of up to 1 (quick) / 2 (thorough) faults {handler error, handler panic, publisher error, publisher panic} on calls 0..2 of any stage for 1..2 stages, 1..2 messages and all 12 GoChannel configs (exhaustive within these bounds), plus random longer pipelines with fan-out, duplicated handlers, fan-in and up to 12 faults; at quiescence every accepted source lineage must have reached the sink, nothing foreign arrived, payloads intact, and no stage's consumed message was settled when the Publish of its output returned.",
+         "Exhaustive only inside the stated bounds; fault scripts are finite; schedules from yield injection at router/gochannel hook points.",
+         "fault-placement enumeration + lineage-conservation oracle at quiescence + sampled-state assertion inside Publish", "DESIGN.md §4 C01"),
+})
+
 NOT_YET = {}
 
 def hook_commits():
